@@ -4,7 +4,7 @@ namespace Knee
 
 theorem getD_cons_succ (a : Nat) (t : List Nat) (k : Nat) :
     (a :: t)[k + 1]?.getD 0 = t[k]?.getD 0 := by
-  simp [List.getD]
+  simp
 
 /-- in a strictly increasing list of naturals, the k-th entry is at least head + k -/
 theorem strict_getD_ge : ∀ (s : List Nat) (k : Nat), s.Pairwise (· < ·) → k < s.length →
@@ -53,7 +53,7 @@ theorem consume_computeRemoved : ∀ (k : Nat) (s : List Nat) (c : Nat), s.Pairw
       omega
 
 theorem getD_drop (s : List Nat) (j k : Nat) : (s.drop j)[k]?.getD 0 = s[j + k]?.getD 0 := by
-  simp [List.getD]
+  simp
 
 /-- main invariant of the `for i in indexes` loop -/
 theorem mappingAux_computeRemoved (r : List Nat) (hp : r.Pairwise (· < ·)) :
@@ -201,5 +201,38 @@ theorem sortRows_of_perm (s : List Nat) (hs : s.Pairwise (· < ·)) (rows : List
   intro a b ha hb h1 h2
   have ha' : a ∈ computeRemoved s := hperm.subset ((sortRows_perm rows).subset ha)
   exact eq_of_key_eq hk ha' hb (Nat.le_antisymm h1 h2)
+
+/-- retained + dropped = n: the table accounts for every original index. -/
+theorem computeRemoved_total : ∀ (s : List Nat), s.Pairwise (· < ·) → s ≠ [] →
+    s.length + ((computeRemoved s).map (·.2)).sum = s.getLast?.getD 0 - s[0]?.getD 0 + 1 := by
+  intro s
+  induction s with
+  | nil => intro _ h; exact absurd rfl h
+  | cons a t ih =>
+    intro hp _
+    match t, hp, ih with
+    | [], _, _ => simp [computeRemoved]
+    | b :: t', hp, ih =>
+      have hab : a < b := List.rel_of_pairwise_cons hp List.mem_cons_self
+      have := ih hp.of_cons (by simp)
+      have hge := strict_getD_ge (b :: t') t'.length hp.of_cons (by simp)
+      have hl : (b :: t').getLast?.getD 0 = (b :: t')[t'.length]?.getD 0 := by
+        rw [List.getLast?_eq_getElem?]; simp
+      simp only [computeRemoved, List.map_cons, List.sum_cons, List.length_cons,
+        List.getLast?_cons_cons] at this ⊢
+      rw [hl] at this ⊢
+      simp at this hge ⊢
+      omega
+
+/-- one row per retained segment -/
+theorem computeRemoved_length : ∀ (s : List Nat), (computeRemoved s).length = s.length - 1 := by
+  intro s
+  induction s with
+  | nil => simp [computeRemoved]
+  | cons a t ih =>
+    cases t with
+    | nil => simp [computeRemoved]
+    | cons b t' => simp [computeRemoved] at ih ⊢; omega
+
 
 end Knee
